@@ -14,15 +14,16 @@ import (
 )
 
 type Request struct {
-	ID   int    `json:"id"`
-	Mode int    `json:"mode"` // 0 ICWS88, 1 NOP94, 2 ICWS94
-	M    uint64 `json:"m"`
-	P    uint64 `json:"p"`
-	L    uint64 `json:"l"`
-	D    uint64 `json:"d"`
-	Text []byte `json:"text"`
-	Par  int    `json:"par,omitempty"` // >1: that many simultaneous CompileWarrior calls on the text
-	CapMiB int  `json:"cap_mib,omitempty"` // heap cap for this request (default 256)
+	ID         int    `json:"id"`
+	Mode       int    `json:"mode"` // 0 ICWS88, 1 NOP94, 2 ICWS94
+	M          uint64 `json:"m"`
+	P          uint64 `json:"p"`
+	L          uint64 `json:"l"`
+	D          uint64 `json:"d"`
+	Text       []byte `json:"text"`
+	Par        int    `json:"par,omitempty"`     // >1: that many simultaneous CompileWarrior calls on the text
+	CapMiB     int    `json:"cap_mib,omitempty"` // heap cap for this request (default 256)
+	WantResult bool   `json:"want_result,omitempty"`
 }
 
 type Response struct {
@@ -37,6 +38,7 @@ type Response struct {
 	Leaked    []string `json:"leaked,omitempty"` // stacks of surviving gmars goroutines
 	OOM       bool     `json:"oom,omitempty"`
 	ParDiffer string   `json:"par_differ,omitempty"` // simultaneous calls disagreed
+	Result    string   `json:"result,omitempty"`     // printed WarriorData and error-ness (only when Request.WantResult)
 }
 
 const (
